@@ -37,6 +37,7 @@ SHRINK = {'clear', 'drain', 'truncate', 'remove', 'split_off', 'pop', 'swap_remo
 def run(ctx):
     _run_main(ctx)
     _shared_r4(ctx)
+    _shared_r5(ctx)
 
 
 def _run_main(ctx):
@@ -233,3 +234,10 @@ def _shared_r4(ctx):
     """Rules of other properties that are necessary conditions of this one too (found by seeding round 4)."""
     with ctx.rule('R01.10', 'the I/O loop does not end while a sealed buffer still holds bytes: a state counts as done only as C08 tables it (shared with C08)', floor=1) as r:
         A.include(ctx, r, 'c08', 'R08.5', pick=('done:',))
+
+
+def _shared_r5(ctx):
+    """Rules of other properties that are necessary conditions of this one too (found by seeding round 5)."""
+    from rules import arms as A
+    with ctx.rule('R01.11', "frames issued through any channel reach the write path: every channel id has its own event token, distinct from the I/O loop's own (shared with C10)", floor=1) as r:
+        A.include(ctx, r, 'c10', 'R10.7', pick=('special-tokens-disjoint', 'token-dispatch-total'))
